@@ -1,15 +1,21 @@
 #!/bin/bash
-# refindep.sh [name...] : all checks on every kept independent refactoring (scratch copies); prints alarms (VIOLATION lines) only
+# refindep.sh [name...] : all checks on every kept independent refactoring (scratch copies; ${PAR:-6} at a time); prints alarms (VIOLATION lines) only.
+# Retired refactorings (RETIRED.txt: a later fix rewrote the code they refactor) are skipped.
 cd /verif
 names="$@"; [ -z "$names" ] && names=$(ls refactors_indep)
-for n in $names; do
-  T=$(mktemp -d /tmp/emcheck-ri-XXXXXX); mkdir -p $T/verif; cp known_findings.json $T/verif/; rsync -a --exclude .git /repo/ $T/repo/
-  if ! (cd $T/repo && patch -p1 -s < /verif/refactors_indep/$n/patch.diff); then echo "$n | PATCH-FAILED"; rm -rf $T; continue; fi
-  al=""
-  for p in $(./bin/emcheck -list); do
-    o=$(./bin/emcheck -property $p -repo $T/repo -verif $T/verif 2>&1)
-    if echo "$o" | grep -q '^VIOLATION'; then al="$al $p"; if [ -n "${VERBOSE:-}" ]; then echo "$o" | grep "rule=" | cut -c1-${WIDTH:-230} | sed "s/^/    $p /"; fi; fi
+run() {
+  n="$1"
+  [ -f /verif/refactors_indep/$n/RETIRED.txt ] && { echo "$n | retired"; return; }
+  T=$(mktemp -d /tmp/emcheck-ri-XXXXXX); mkdir -p $T/verif; cp /verif/known_findings.json $T/verif/; rsync -a --exclude .git /repo/ $T/repo/
+  if ! (cd $T/repo && patch -p1 -s -f < /verif/refactors_indep/$n/patch.diff >/dev/null 2>&1); then echo "$n | PATCH-FAILED"; rm -rf $T; return; fi
+  al=""; extra=""
+  for p in $(${EMCHECK:-/verif/bin/emcheck} -list); do
+    o=$(${EMCHECK:-/verif/bin/emcheck} -property $p -repo $T/repo -verif $T/verif 2>&1)
+    if echo "$o" | grep -q '^VIOLATION'; then al="$al $p"; if [ -n "${VERBOSE:-}" ]; then extra="$extra$(echo "$o" | grep "rule=" | grep -v "^KNOWN" | cut -c1-${WIDTH:-230} | sed "s/^/    $p /")"$'\n'; fi; fi
   done
   echo "$n | alarms:${al:- none}"
+  [ -n "$extra" ] && echo -n "$extra"
   rm -rf $T
-done
+}
+export -f run
+echo $names | tr ' ' '\n' | xargs -P ${PAR:-6} -I{} bash -c "run {}"
